@@ -252,6 +252,13 @@ func genC01(rng *rand.Rand, n int) SrvCase {
 	}
 	sizes := map[string]int{}
 	xfer := effTransfer(c.Cfg)
+	if c.Cfg.Transfer > 0 && c.Cfg.Transfer <= 512 && rng.Intn(2) == 0 {
+		// a file several transfer sizes long: READs whose count exceeds what is left, which in turn exceeds the
+		// transfer size, are clipped by the transfer size
+		n := 2*xfer + rng.Intn(xfer)
+		c.Seed = []string{"file /f0 " + hx(randBytes(rng, n))}
+		sizes["f0"] = n
+	}
 	offset := func(name string) uint64 {
 		sz := uint64(sizes[name])
 		switch rng.Intn(12) {
